@@ -159,6 +159,9 @@ JOBS = [
     Job('Accumulator.Sum', 'Accumulator::Sum', ['C16', 'C08', 'C14'], replace=[('Accumulator::Add', dict(ghost=False))], timeout=300,
         rewrites=[(r'Accumulator a\(\*this\);', 'struct Accumulator a = *self;'), (r'a\.Add\(y\);', 'Accumulator_Add(VERIF_OBJ(a), y);')],
         description='sum with one more value, the accumulator itself unchanged'),
+    Job('Accumulator.remainder', 'Accumulator::remainder', ['C16', 'C08', 'C13'], replace=['Accumulator::Add'], timeout=300,
+        rewrites=[(r'return \*this;', 'return self;')],
+        description='reduce the accumulator modulo y: frame, one renormalising Add(0), NaN rule'),
     # ---- polygon area (C08)
     Job('PolygonArea.transitdirect', 'PolygonAreaT::transitdirect', ['C08', 'C14'], timeout=900, sat='cadical', description='crossing parity for unrolled (direct) edges'),
     Job('PolygonArea.transitdirect.full', 'PolygonAreaT::transitdirect', ['C08'], timeout=3600, sat='cadical', tier='thorough', defines=['TD_MAXTURNS=1073741824'],
